@@ -59,6 +59,7 @@ type world struct {
 	jrs     map[string]gmsl.PDU   // by join rule
 	members map[[2]string]gmsl.PDU // (user, membership)
 	tpi     gmsl.PDU
+	tpiNoTok gmsl.PDU // a third-party-invite event whose state key (the token) is the empty string
 	tpiKey  ed25519.PrivateKey
 	seq     int64
 }
@@ -192,6 +193,8 @@ func newWorld(r *gen.Rand, ver gmsl.RoomVersion, variant string, nPL int) *world
 	w.tpiKey = ed25519.NewKeyFromSeed(r.Bytes(32))
 	pub := base64.RawStdEncoding.EncodeToString(w.tpiKey.Public().(ed25519.PublicKey))
 	w.tpi = w.mustBuild("m.room.third_party_invite", strp("tok1"), creator, ref.O("display_name", ref.S("b...@example.org"), "key_validity_url", ref.S("https://id.example/valid"),
+		"public_key", ref.S(pub), "public_keys", ref.A(ref.O("public_key", ref.S(pub), "key_validity_url", ref.S("https://id.example/valid")))))
+	w.tpiNoTok = w.mustBuild("m.room.third_party_invite", strp(""), creator, ref.O("display_name", ref.S("c...@example.org"), "key_validity_url", ref.S("https://id.example/valid"),
 		"public_key", ref.S(pub), "public_keys", ref.A(ref.O("public_key", ref.S(pub), "key_validity_url", ref.S("https://id.example/valid")))))
 	return w
 }
